@@ -1,10 +1,87 @@
 import RgVerif.Model.Sx
+import RgVerif.Model.Gitignore
+import RgVerif.Spec.GitSpec
 namespace RgVerif.Driver.C04
-open RgVerif
+open RgVerif RgVerif.Glob RgVerif.Gitignore
 
-/-- Request handler of property C04: `cmd` is the first token of the line, `args` the rest. -/
+def errName : PErr → String
+  | .unclosedClass => "UnclosedClass"
+  | .invalidRange => "InvalidRange"
+  | .unopenedAlternates => "UnopenedAlternates"
+  | .unclosedAlternates => "UnclosedAlternates"
+  | .nestedAlternates => "NestedAlternates"
+  | .danglingEscape => "DanglingEscape"
+  | .fuel => "Fuel"
+
+def b01 (b : Bool) : String := if b then "1" else "0"
+
+/-- `(l cp cp …)` -/
+def parseLineSx : Sx → Option (List Nat)
+  | .list (.atom "l" :: cps) => cps.mapM Sx.nat?
+  | _ => none
+
+/-- code points → bytes for printing (lines on the wire are ASCII or already valid scalars) -/
+def cpHex (l : List Nat) : String := toHex (utf8Str l)
+
+def showVerdict (globs : List GiGlob) : Verdict → String
+  | .none => "n"
+  | .ignore i => match globs[i]? with
+    | some g => s!"i:{cpHex g.original}:{cpHex g.actual}"
+    | none => "i:?"
+  | .whitelist i => match globs[i]? with
+    | some g => s!"w:{cpHex g.original}:{cpHex g.actual}"
+    | none => "w:?"
+
+/-- `(ign (d comphex…) (lines (l …) …))` entries → lookup function -/
+def parseIgn (xs : List Sx) : Option (List (List Bytes × List (List Nat))) :=
+  xs.mapM fun x =>
+    match x with
+    | .list [.atom "ign", .list (.atom "d" :: comps), .list (.atom "lines" :: ls)] => do
+      let comps ← comps.mapM Sx.bytes?
+      let ls ← ls.mapM parseLineSx
+      pure (comps, ls)
+    | _ => none
+
+def lookupIgn (tab : List (List Bytes × List (List Nat))) (d : List Bytes) : List (List Nat) :=
+  match tab.find? (fun e => e.1 == d) with
+  | some e => e.2
+  | none => []
+
 def handle (cmd : String) (args : List Sx) : String :=
   match cmd, args with
+  | "c04.line", [ci, l] =>
+    match ci.bool?, parseLineSx l with
+    | some ci, some l =>
+      let rg := match addLine ci l with
+        | .skip => "skip"
+        | .err e => "err:" ++ errName e
+        | .glob g => s!"glob:{b01 g.isWhitelist}{b01 g.isOnlyDir}:{cpHex g.original}:{cpHex g.actual}:{toHex (toRegex g.glob.opts g.glob.tokens)}"
+      let git := match GitSpec.parsePat l with
+        | none => "skip"
+        | some p => s!"pat:{b01 p.negative}{b01 p.mustBeDir}{b01 p.noDir}:{cpHex p.text}"
+      rg ++ " " ++ git
+    | _, _ => "bad-op"
+  | "c04.file", [ci, root, .list (.atom "lines" :: ls), .list (.atom "paths" :: ps)] =>
+    match ci.bool?, root.bytes?, ls.mapM parseLineSx,
+          ps.mapM (fun p => match p with
+            | .list [d, h] => do pure ((← d.bool?), (← h.bytes?))
+            | _ => none) with
+    | some ci, some root, some ls, some ps =>
+      let globs := buildGlobs ci ls
+      ";".intercalate (ps.map fun (d, p) => showVerdict globs (matchedPathOrAnyParents root globs p d)
+                                             ++ "," ++ showVerdict globs (matched root globs p d))
+    | _, _, _, _ => "bad-op"
+  | "c04.tree", [ci, .list (.atom "igns" :: igs), .list (.atom "paths" :: ps)] =>
+    match ci.bool?, parseIgn igs,
+          ps.mapM (fun p => match p with
+            | .list (d :: comps) => do pure ((← d.bool?), (← comps.mapM Sx.bytes?))
+            | _ => none) with
+    | some ci, some tab, some ps =>
+      let ign := lookupIgn tab
+      String.ofList (ps.flatMap fun (d, comps) =>
+        [if rgSkipped ci ign comps d then '1' else '0',
+         if GitSpec.gitIgnored ci ign comps d then '1' else '0'])
+    | _, _, _ => "bad-op"
   | _, _ => "bad-op"
 
 end RgVerif.Driver.C04
